@@ -42,7 +42,9 @@ def judge(plan: dict, tr: P.Trace):
         mode = "pub" if p["key_identifier"]["flags"] & 1 else "nonce"
         probes["mode_" + mode] = 1
         drawn = {bytes.fromhex(d[3]) for d in ot.draws}
-        prov = vals["gcm-nonce"] in drawn and vals["cek"] in drawn and (mode == "pub" or vals["key-info"] in drawn)
+        # (a value counts as drawn when it is, or is a slice of, something the entropy source handed out during this operation)
+        isin = lambda v: any(v in d_ for d_ in drawn)  # noqa: E731
+        prov = isin(vals["gcm-nonce"]) and isin(vals["cek"]) and (mode == "pub" or isin(vals["key-info"]))
         probes["provenance_ok" if prov else "provenance_not_literal"] = probes.get("provenance_ok" if prov else "provenance_not_literal", 0) + 1
         for what, v in vals.items():
             if what == "ciphertext" and not ot.plaintext:
@@ -120,6 +122,17 @@ def gen_plan(rng, i: int, tier: str) -> dict:
             if variant == 1:
                 ops.append({"op": "app_random_seed", "value": 4242})
             ops.append({"op": "protect", "fl": fl, "sid": offline.SID_B, "rk": None, "net": "online", "data": data, "same_data": True})
+    elif kind == "identical-offline" and False:
+        pass
+    elif kind == "concurrent" and plan["seed"] % 3 == 1:
+        # application code that mixes the two APIs inside asyncio tasks: each task ("chain") protects several times in a row, some of
+        # the calls through the blocking API from inside the coroutine; one or two such tasks at once
+        plan["kind"] = "task-chain"
+        ops.append({"op": "load_key", "rk": 0})
+        for c in range(1 + plan["seed"] % 2):
+            for k in range(rng.randint(2, 5)):
+                ops.append({"op": "protect", "fl": "async", "group": 1, "chain": c, "inner": "sync" if (k + c) % 2 else "async", "sid": offline.SID_A, "rk": 0,
+                            "net": "offline", "data": data, "same_data": rng.random() < 0.5})
     elif kind == "concurrent":
         if rng.random() < 0.5:
             ops.append({"op": "load_key", "rk": 0})
@@ -182,13 +195,13 @@ class C19(common.Check):
             "after a protect and parent and child both go on protecting, and histories whose key position alternates (clock stepping between two "
             "intervals and back, two root keys used in turn), histories in which the application re-seeds Python's global PRNG with the same value "
             "before every call, public-key replies whose PublicKeyLength field is 0 / 8 / 2^32-1, histories in which the blob an earlier protect returned is protected again, "
-            "histories under a /dev/urandom that returns EOF or short reads to whoever opens it as a file, histories run in a child interpreter with assertions compiled out (PYTHONOPTIMIZE=1), histories in which os.urandom starts raising (the child's entropy source is re-keyed, buffered state is shared). From each emitted blob the "
+            "histories under a /dev/urandom that returns EOF or short reads to whoever opens it as a file, histories in which one or two asyncio tasks each protect several times in a row, alternating between the async API and the blocking API called from inside the coroutine, histories run in a child interpreter with assertions compiled out (PYTHONOPTIMIZE=1), histories in which os.urandom starts raising (the child's entropy source is re-keyed, buffered state is shared). From each emitted blob the "
             "reference extracts GCM nonce and key_info and recovers the CEK; all must be pairwise distinct within the history. "
             "Non-trivial = history with >= 2 successful protects; distinct = distinct plan.")
     components = {"client": "real (public API, KeyCache, _encrypt_blob, cek_generate, new_kek)", "entropy": "simulated (os.urandom and AESGCM.generate_key seams, ledger)",
                   "clock": "simulated, frozen", "DC": "model (RefDC)", "security context": "stub (StubCtx)", "blob opener": "model (ref.cms/ref.gkdi)"}
     assumptions = ["the simulated entropy source never repeats a draw; real-world collision probability of fresh 96/256-bit values is outside the claim"]
-    required_fired = ("mode_pub", "mode_nonce", "provenance_ok", "forked_histories", "alternating_positions", "thread_histories", "thread_overlap", "app_reseed_histories", "odd_length_field_histories", "reprotect_histories", "entropy_device_fault_histories", "entropy_source_failure_histories", "histories_with_assertions_compiled_out")
+    required_fired = ("mode_pub", "mode_nonce", "provenance_ok", "forked_histories", "alternating_positions", "thread_histories", "thread_overlap", "app_reseed_histories", "odd_length_field_histories", "reprotect_histories", "entropy_device_fault_histories", "entropy_source_failure_histories", "histories_with_assertions_compiled_out", "task_chain_histories")
 
     def cases(self, tier, seed):
         rng = prng.stream(seed, "C19")
@@ -255,6 +268,8 @@ class C19(common.Check):
             probes["entropy_source_failure_histories"] = 1
         if case.get("kind") == "app-reseed":
             probes["app_reseed_histories"] = 1
+        if case.get("kind") == "task-chain":
+            probes["task_chain_histories"] = 1
         if case.get("kind") == "pub-reply-odd-length-field":
             probes["odd_length_field_histories"] = 1
         if case.get("kind") == "threads":
